@@ -257,6 +257,49 @@ theorem C02_detached_handle_write_does_not_reach_backend (fams : List Fam) (hist
   obtain ⟨hok, hwn⟩ := srun_ownOK history _ (empty_idOK fams) (empty_ownOK fams)
   exact call_detached_refines s oi id o d t0 op ho hst hown hok hnot (lt_next_of_owner hwn hown) hdet herr hns hm hpre
 
+/-- C02, WHEN A POSITION GOES, THE HANDLE IS NOT THERE ANY MORE.  After a merge that returns normally —
+any stale memory `t`, any data `d`, any path `p` of any length — what sits at `p` in memory is what
+the data has at `p`: if the data has nothing there (key removed, list shortened, a container above
+became a scalar), memory has nothing there; if the data has something there, memory has a node of
+exactly that kind (leaf / list / dict).  So a nested collection the user obtained at `p` earlier is
+not the node at `p` once the backend holds something of another kind there (with
+`C02_handle_stays_attached`: it is the node at `p` exactly as long as the kinds along `p` agree).
+That the old node then occurs NOWHERE in the tree (the merge never moves nodes) is checked by the
+Shadow's attachment rule and the twin, not proved here. -/
+theorem C02_changed_position_no_longer_holds_the_handle (fam : Fam) {ι : Type} (p : List Seg) (t : T)
+    (d : Tr ι) (n : Nat) (hd : d.wf = true) (ht : t.wf = true) (hnn : d ≠ .leaf .null)
+    (herr : (updNode fam t d n).err = none) :
+    (Tr.sub p d = none → Tr.sub p (updNode fam t d n).val = none) ∧
+    (∀ dc c', Tr.sub p d = some dc → Tr.sub p (updNode fam t d n).val = some c' →
+      c'.isDict = dc.isDict ∧ c'.isList = dc.isList ∧ Eqv c' dc) := by
+  have he := (updNode_post fam d t n hd ht hnn herr).1
+  constructor
+  · intro hnone
+    cases hs : Tr.sub p (updNode fam t d n).val with
+    | none => rfl
+    | some c' =>
+      obtain ⟨dc, hdc, _⟩ := eqv_sub p _ d c' he hs
+      rw [hnone] at hdc; cases hdc
+  · intro dc c' hdc hs
+    obtain ⟨dc', hdc', hcc⟩ := eqv_sub p _ d c' he hs
+    rw [hdc] at hdc'; cases hdc'
+    refine ⟨?_, ?_, hcc⟩
+    · cases c' <;> cases dc <;> simp_all [Eqv, Tr.isDict]
+    · cases c' <;> cases dc <;> simp_all [Eqv, Tr.isList]
+
+/-- non-vacuity: the three ways a position goes — key removed, position turned into a scalar, dict
+turned into a list — and in each the node at the path afterwards is not a dict any more -/
+example :
+    let fam : Fam := ⟨[.requireStringKey, .jsonFormat], [.requireStringKey, .jsonFormat]⟩
+    let t : T := .dict 0 [(.s "a", .dict 1 [(.s "k", .leaf (.int 1))]), (.s "b", .dict 2 []), (.s "c", .dict 3 [])]
+    let d : J := .dict () [(.s "b", .leaf (.int 5)), (.s "c", .list () [])]
+    (updNode fam t d 4).err = none ∧ d.wf = true ∧ t.wf = true ∧
+    (Tr.sub [.key (.s "a")] (updNode fam t d 4).val).isNone = true ∧
+    ((Tr.sub [.key (.s "b")] (updNode fam t d 4).val).map Tr.isDict) = some false ∧
+    ((Tr.sub [.key (.s "c")] (updNode fam t d 4).val).map Tr.isDict) = some false ∧
+    decide (1 ∉ Tr.ids (updNode fam t d 4).val) = true := by
+  decide
+
 /-- non-vacuity: a child handle is cut off by an outside rewrite that turns its position into a
 scalar; a write through it afterwards leaves the backend with the outside writer's content -/
 example :
